@@ -2,6 +2,5 @@ package main
 
 import "bufio"
 
-func cmdComb(in *bufio.Reader)    { panic("todo") }
 func cmdParse(in *bufio.Reader)   { panic("todo") }
 func cmdMemOps(in *bufio.Reader)  { panic("todo") }
